@@ -69,14 +69,17 @@ func vfC15Ch(ch uint16) uint16 {
 	return ch
 }
 
-// vfC15Base: encoding name (case-insensitive), clock rate and channel count agree.
-func vfC15Base(a, b vfFamCCodec) bool {
-	return strings.EqualFold(a.Name, b.Name) && a.Clock == b.Clock && vfC15Ch(a.Ch) == vfC15Ch(b.Ch)
+// vfC15Base: encoding name (case-insensitive), clock rate and channel count agree. l is the
+// local registration; a clock rate / channel count it leaves 0 stands for the documented
+// default (vfFamCLongForm).
+func vfC15Base(kind string, r, l vfFamCCodec) bool {
+	l = vfFamCLongForm(kind, l)
+	return strings.EqualFold(r.Name, l.Name) && r.Clock == l.Clock && vfC15Ch(r.Ch) == vfC15Ch(l.Ch)
 }
 
 // vfC15Match classifies how well remote codec r is matched by local codec l (same kind).
 func vfC15Match(kind string, r, l vfFamCCodec) int {
-	if !vfC15Base(r, l) {
+	if !vfC15Base(kind, r, l) {
 		return vfC15None
 	}
 	rp, lp := vfC15ParseFmtp(r.Fmtp), vfC15ParseFmtp(l.Fmtp)
@@ -228,7 +231,7 @@ func vfC15CheckSet(v *vfT, c vfC15Case, kind, where string, got []RTPCodecParame
 		best := vfC15Best(kind, r, locals)
 		if best == vfC15None {
 			for _, l := range locals {
-				if strings.EqualFold(l.Name, r.Name) && (l.Clock != r.Clock || vfC15Ch(l.Ch) != vfC15Ch(r.Ch)) {
+				if ll := vfFamCLongForm(kind, l); strings.EqualFold(l.Name, r.Name) && (ll.Clock != r.Clock || vfC15Ch(ll.Ch) != vfC15Ch(r.Ch)) {
 					v.Violation("C15/no-local-match/clock-or-channels-ignored", "%s %s: negotiated %s; the only local codecs of that name have another clock rate / channel count: %+v", where, kind, vfC15Desc(n), locals)
 				}
 			}
@@ -388,6 +391,11 @@ func vfC15Run(v *vfT, c vfC15Case) {
 	for _, sec := range c.Offer.Sections {
 		if sec.Port0 != "" {
 			v.Label("offer-section:" + sec.Port0)
+		}
+	}
+	for _, l := range append(append([]vfFamCCodec{}, c.Local.Audio...), c.Local.Video...) {
+		if !l.isRTX() && l.Clock == 0 {
+			v.Label("local-codec-registered-without-clock-rate")
 		}
 	}
 	if err := pc.SetRemoteDescription(SessionDescription{Type: SDPTypeOffer, SDP: vfFamCOfferSDP(c.Offer, 1)}); err != nil {
